@@ -45,7 +45,6 @@ PARTIAL = [
     "C04_rolling_wf_partial covers the grouped rolling only; the ungrouped rule does not re-apply the parent "
     "(C04_rolling_counterexample; D43)",
     "the collapse of the child to a Series is sound only for operators that act on a Series as on the one-column frame; "
-    "Round(dict) and Where(frame condition) do not (D45, D46: search only)",
     "C04_widening is proven per rule (the child projection does not depend on unrequested input columns) and for sources; "
     "the whole-plan statement is covered by the end-to-end widened-vs-original search only",
     "rules over Series inputs (ResetIndex of a Series, Projection of a Series), MultiIndex / non-string labels, "
@@ -1644,7 +1643,7 @@ def _cases(ctx, broken):
         first = [c for c in cases if _prog(c["prog"]).site in steer_sites]
         rest = [c for c in cases if _prog(c["prog"]).site not in steer_sites]
         rng.shuffle(rest)
-        return first + rest[:300]
+        return CORPUS + first + rest[:300]
     if ctx.quick:
         # the corpus, then per program a seeded sample: one scalar, one one-element list, two longer lists, one shared shape
         rng.shuffle(cases)
